@@ -18,25 +18,27 @@ PLAYBACK_MARK = "// @@PLAYBACK@@"
 
 
 def _inject(crate_dir, hname, test_text):
-    """Put test_text at the first PLAYBACK marker following `fn <hname>(` in the crate's sources."""
+    """Put test_text at the first PLAYBACK marker following `fn <hname>(` in the crate's sources
+    (macro-generated harnesses: the first marker after the first mention of the name)."""
     short = hname.split("::")[-1]
-    for root, _, files in os.walk(os.path.join(crate_dir, "src")):
-        for fn in files:
-            if not fn.endswith(".rs"):
-                continue
-            p = os.path.join(root, fn)
-            with open(p) as f:
-                s = f.read()
-            m = re.search(r"\bfn\s+%s\s*\(" % re.escape(short), s)
-            if not m:
-                continue
-            k = s.find(PLAYBACK_MARK, m.end())
-            if k < 0:
-                continue
-            s = s[:k] + test_text + "\n" + s[k:]
-            with open(p, "w") as f:
-                f.write(s)
-            return p
+    for pat in (r"\bfn\s+%s\s*\(" % re.escape(short), r"\b%s\b" % re.escape(short)):
+        for root, _, files in os.walk(os.path.join(crate_dir, "src")):
+            for fn in sorted(files):
+                if not fn.endswith(".rs"):
+                    continue
+                p = os.path.join(root, fn)
+                with open(p) as f:
+                    s = f.read()
+                m = re.search(pat, s)
+                if not m:
+                    continue
+                k = s.find(PLAYBACK_MARK, m.end())
+                if k < 0:
+                    continue
+                s = s[:k] + test_text + "\n" + s[k:]
+                with open(p, "w") as f:
+                    f.write(s)
+                return p
     return None
 
 
